@@ -422,14 +422,13 @@ Qed.
 
 (** ** the object token *)
 Lemma obj_step_fx s p o l pre :
-  valid_obj o = true -> obj_utf8 o = true -> valid_layout l = true -> C06_dom_fx (STriple s p o) l = true ->
+  valid_obj o = true -> obj_utf8 o = true -> valid_layout l = true -> rc_F7_fx (STriple s p o) l = false ->
   forall f acc,
     look_loop_fx (S f) (pre ++ r_obj o ++ after_obj l) (len pre) acc
     = look_loop_fx f (pre ++ r_obj o ++ after_obj l) (len pre + len (r_obj o)) (r_obj o :: acc).
 Proof.
-  intros V U VL D f acc.
+  intros V U VL R7 f acc.
   destruct (layout_parts _ VL) as (W1 & N1 & W2 & N2 & W3 & WC & CC).
-  destruct (dom_fx_parts _ _ D) as (_ & _ & _ & R7).
   destruct o as [[u | lab] | lex suf].
   - cbn [valid_obj valid_node] in V. cbn [r_obj r_node].
     change (Str "<" ++ u ++ Str ">") with (r_iri u). apply lookx_uri. apply iri_no_gt. exact V.
@@ -454,7 +453,7 @@ Proof.
 Qed.
 
 Lemma tokens_of_line_fx t l :
-  valid_triple t = true -> valid_layout l = true -> C06_dom_fx t l = true ->
+  valid_triple t = true -> valid_layout l = true -> rc_F7_fx t l = false ->
   look_for_tokens_fx (nt_line t l) = Ok [r_node (t_s t); r_iri (t_p t); r_obj (t_o t)].
 Proof.
   intros V VL D. destruct t as [s p o]. cbn [t_s t_p t_o] in *.
@@ -485,6 +484,9 @@ Proof.
   - unfold line_fuel. lia.
 Qed.
 
+Lemma f7_norm t l : rc_F7_fx t (norm_layout l) = rc_F7_fx t l.
+Proof. unfold rc_F7_fx, norm_layout. cbn [predot comment]. destruct (comment l) as [[w txt]|]; reflexivity. Qed.
+
 (** ** typing of the object token (unchanged [decide_literal_type]) *)
 Lemma f3_plain s p lex : rc_F3 (STriple s p (OLit lex SufNone)) = false ->
   contains s_quote_hats (r_obj (OLit lex SufNone)) = false.
@@ -512,11 +514,8 @@ Lemma process_line_fx_ok allow t l :
   exists s o, process_line_fx allow (nt_line t l) = LYield s (t_p t) o /\ k3 (s, t_p t, o) = kinded t.
 Proof.
   intros V VL D. unfold process_line_fx. rewrite strip_line.
-  assert (Dn : C06_dom_fx t (norm_layout l) = true).
-  { revert D. unfold C06_dom_fx, root_causes_fx, rc_F7_fx, norm_layout. cbn [predot comment].
-    destruct (comment l) as [[w txt]|]; auto. }
-  rewrite tokens_of_line_fx by first [assumption | apply valid_layout_norm; assumption].
-  destruct (dom_fx_parts _ _ D) as (R3 & R4 & R5 & _).
+  destruct (dom_fx_parts _ _ D) as (R3 & R4 & R5 & R7).
+  rewrite tokens_of_line_fx by first [assumption | apply valid_layout_norm; assumption | rewrite f7_norm; assumption].
   destruct t as [s p o]. cbn [t_s t_p t_o] in *.
   unfold valid_triple in V. cbn [t_s t_p t_o] in V.
   apply andb_true_iff in V. destruct V as [V Vu]. apply andb_true_iff in V. destruct V as [V Vo].
@@ -600,21 +599,199 @@ Proof.
   unfold ok_case_fx. cbn [fst snd]. auto.
 Qed.
 
-(** ** the reader /repo has now ([nt_fixed_tok]) *)
+(** * The typing repair (literal-type-from-suffix): [decide_literal_type_fx] *)
+Lemma lstrip_ns s : forallb (fun c => negb (is_space c)) s = true -> lstrip s = s.
+Proof. destruct s as [|c s]; [reflexivity|]. cbn. intros H. apply andb_true_iff in H. destruct H as [H _].
+  apply negb_true_iff in H. rewrite H. reflexivity. Qed.
+
+Lemma strip_ns s : forallb (fun c => negb (is_space c)) s = true -> strip s = s.
+Proof.
+  intros H. unfold strip, rstrip. rewrite (lstrip_ns s H). rewrite lstrip_ns; [apply rev_involutive|].
+  rewrite forallb_forall in *. intros c I. apply H. apply in_rev. exact I.
+Qed.
+
+Lemma slice_from_end s : slice_from s (len s) = [].
+Proof. rewrite <- (app_nil_r s) at 1. apply slice_from_app. Qed.
+
+Lemma rfind_quote_last a b : ~ In dq b -> rfind (Str """") (a ++ dq :: b) + 1 = len (a ++ [dq]).
+Proof.
+  intros H. change (Str """") with [dq]. rewrite (rfind_of_nat _ _ _ (rfind_nat_last dq a b H)).
+  rewrite of_nat_len, len_app. reflexivity.
+Qed.
+
+Lemma tune_plain_fx allow rl :
+  exists content, tune_token_fx allow (dq :: rl ++ [dq]) = Ok (TLit content xsd_string).
+Proof.
+  change (tune_token_fx allow (dq :: rl ++ [dq])) with (parse_literal_fx (dq :: rl ++ [dq])).
+  unfold parse_literal_fx, decide_literal_type_fx.
+  assert (R : rfind (Str """") (dq :: rl ++ [dq]) + 1 = len (dq :: rl ++ [dq])).
+  { change (dq :: rl ++ [dq]) with ((dq :: rl) ++ dq :: []). rewrite rfind_quote_last by (intros []). reflexivity. }
+  assert (Q0 : (rfind (Str """") (dq :: rl ++ [dq]) <? 0) = false).
+  { apply Z.ltb_ge. pose proof (len_nonneg (rl ++ [dq])). rewrite len_cons in R. lia. }
+  rewrite Q0, R, slice_from_end. cbn [strip rstrip lstrip rev app prefixb].
+  change (prefixb ntf_lang_char []) with false. change (prefixb ntf_type_marker []) with false. cbn [negb].
+  assert (AF : arroba_after_last_quotes (dq :: rl ++ [dq]) = false).
+  { change (dq :: rl ++ [dq]) with ((dq :: rl) ++ dq :: []). apply arroba_false. intros []. }
+  rewrite AF. cbn [bind]. eexists. reflexivity.
+Qed.
+
+Lemma tag_char_nospace c : tag_char c = true -> negb (is_space c) = true.
+Proof. ascii_cases c; cbn; intros H; try reflexivity; discriminate. Qed.
+
+Lemma iri_char_nospace c : iri_char c = true -> negb (is_space c) = true.
+Proof. ascii_cases c; cbn; intros H; try reflexivity; discriminate. Qed.
+
+Lemma tune_lang_fx allow rl tag :
+  forallb tag_char tag = true ->
+  exists content, tune_token_fx allow (dq :: rl ++ dq :: c_at :: tag) = Ok (TLit content rdf_langString).
+Proof.
+  intros TC.
+  change (tune_token_fx allow (dq :: rl ++ dq :: c_at :: tag)) with (parse_literal_fx (dq :: rl ++ dq :: c_at :: tag)).
+  unfold parse_literal_fx, decide_literal_type_fx.
+  assert (NQ : ~ In dq (c_at :: tag)).
+  { apply notin_cons; [discriminate|]. apply (forallb_notin _ _ _ TC). reflexivity. }
+  assert (R : rfind (Str """") (dq :: rl ++ dq :: c_at :: tag) + 1 = len ((dq :: rl) ++ [dq])).
+  { change (dq :: rl ++ dq :: c_at :: tag) with ((dq :: rl) ++ dq :: (c_at :: tag)). apply rfind_quote_last. exact NQ. }
+  assert (SF : slice_from (dq :: rl ++ dq :: c_at :: tag) (len ((dq :: rl) ++ [dq])) = c_at :: tag).
+  { replace (dq :: rl ++ dq :: c_at :: tag) with (((dq :: rl) ++ [dq]) ++ c_at :: tag)
+      by (cbn [app]; rewrite <- app_assoc; reflexivity).
+    apply slice_from_app. }
+  assert (Q0 : (rfind (Str """") (dq :: rl ++ dq :: c_at :: tag) <? 0) = false).
+  { apply Z.ltb_ge. pose proof R as R'. rewrite len_app, !len_cons, len_nil in R'. pose proof (len_nonneg rl). lia. }
+  rewrite Q0, R, SF. rewrite strip_ns.
+  - replace (prefixb ntf_lang_char (c_at :: tag)) with true by reflexivity. cbn [bind]. eexists. reflexivity.
+  - cbn [forallb]. replace (negb (is_space c_at)) with true by reflexivity. cbn [andb].
+    apply (forallb_impl tag_char); [exact tag_char_nospace | exact TC].
+Qed.
+
+Lemma tune_typed_fx allow rl d :
+  forallb iri_char d = true ->
+  exists content, tune_token_fx allow (dq :: rl ++ dq :: r_typed_suffix d) = Ok (TLit content d).
+Proof.
+  intros IC.
+  change (tune_token_fx allow (dq :: rl ++ dq :: r_typed_suffix d))
+    with (parse_literal_fx (dq :: rl ++ dq :: r_typed_suffix d)).
+  unfold parse_literal_fx, decide_literal_type_fx.
+  assert (NQ : ~ In dq (r_typed_suffix d)).
+  { unfold r_typed_suffix. repeat (apply notin_cons; [discriminate|]). apply notin_app.
+    - apply (forallb_notin _ _ _ IC). reflexivity.
+    - intros [E|[]]; discriminate. }
+  assert (R : rfind (Str """") (dq :: rl ++ dq :: r_typed_suffix d) + 1 = len ((dq :: rl) ++ [dq])).
+  { change (dq :: rl ++ dq :: r_typed_suffix d) with ((dq :: rl) ++ dq :: r_typed_suffix d). apply rfind_quote_last. exact NQ. }
+  assert (SF : slice_from (dq :: rl ++ dq :: r_typed_suffix d) (len ((dq :: rl) ++ [dq])) = r_typed_suffix d).
+  { replace (dq :: rl ++ dq :: r_typed_suffix d) with (((dq :: rl) ++ [dq]) ++ r_typed_suffix d)
+      by (cbn [app]; rewrite <- app_assoc; reflexivity).
+    apply slice_from_app. }
+  assert (Q0 : (rfind (Str """") (dq :: rl ++ dq :: r_typed_suffix d) <? 0) = false).
+  { apply Z.ltb_ge. pose proof R as R'. rewrite len_app, !len_cons, len_nil in R'. pose proof (len_nonneg rl). lia. }
+  rewrite Q0, R, SF. rewrite strip_ns.
+  - unfold r_typed_suffix.
+    replace (prefixb ntf_lang_char (hat :: hat :: lt_c :: d ++ [gt_c])) with false by reflexivity.
+    replace (prefixb ntf_type_marker (hat :: hat :: lt_c :: d ++ [gt_c])) with true by reflexivity. cbn [negb].
+    change (hat :: hat :: lt_c :: d ++ [gt_c]) with ([hat; hat] ++ lt_c :: d ++ [gt_c]).
+    change 2 with (len [hat; hat]). rewrite slice_from_app.
+    replace (first_dlt_prefix ntf_dlt_prefix_table (lt_c :: d ++ [gt_c])) with (@None (str * Z * str)) by reflexivity.
+    replace (prefixb ntf_dlt_iri_open (lt_c :: d ++ [gt_c])) with true by reflexivity.
+    change (lt_c :: d ++ [gt_c]) with ((lt_c :: d) ++ [gt_c]) at 1. change ntf_dlt_iri_close with [gt_c].
+    rewrite suffixb_app_end. cbn [andb].
+    unfold slice_cp. change (-1 =? -1) with true. cbv iota.
+    change (lt_c :: d ++ [gt_c]) with ([lt_c] ++ d ++ [gt_c]). change 1 with (len [lt_c]). rewrite slice_from_app.
+    rewrite drop_last_cp_gt. cbn [bind]. eexists. reflexivity.
+  - unfold r_typed_suffix. cbn [forallb]. replace (negb (is_space hat)) with true by reflexivity.
+    replace (negb (is_space lt_c)) with true by reflexivity. cbn [andb]. rewrite forallb_app.
+    rewrite (forallb_impl iri_char _ d iri_char_nospace IC). reflexivity.
+Qed.
+
+Lemma process_line_fx2_ok allow t l :
+  valid_triple t = true -> valid_layout l = true -> rc_F7_fx t l = false ->
+  exists s o, process_line_fx2 allow (nt_line t l) = LYield s (t_p t) o /\ k3 (s, t_p t, o) = kinded t.
+Proof.
+  intros V VL R7. unfold process_line_fx2. rewrite strip_line.
+  rewrite tokens_of_line_fx by first [assumption | apply valid_layout_norm; assumption | rewrite f7_norm; assumption].
+  destruct t as [s p o]. cbn [t_s t_p t_o] in *.
+  unfold valid_triple in V. cbn [t_s t_p t_o] in V.
+  apply andb_true_iff in V. destruct V as [V Vu]. apply andb_true_iff in V. destruct V as [V Vo].
+  apply andb_true_iff in V. destruct V as [Vs Vp].
+  assert (TS : exists s', tune_token_fx false (r_node s) = Ok s' /\ term_k s' = k_node s).
+  { destruct s as [u|lab]; cbn [r_node k_node].
+    - change (Str "<" ++ u ++ Str ">") with (r_iri u).
+      change (tune_token_fx false (r_iri u)) with (bind (remove_corners (r_iri u)) (fun u => Ok (TIri u))).
+      rewrite remove_corners_iri. eexists; split; reflexivity.
+    - eexists; split; reflexivity. }
+  destruct TS as (s' & TS & KS). cbn [tokens_result_fx]. rewrite TS. rewrite tune_prop_iri.
+  assert (TO : exists o', tune_token_fx allow (r_obj o) = Ok o' /\ term_k o' = k_obj o).
+  { destruct o as [[u | lab] | lex [ | tag | dt]]; cbn [r_obj r_node k_obj k_node dt_of r_suffix].
+    - change (Str "<" ++ u ++ Str ">") with (r_iri u).
+      change (tune_token_fx allow (r_iri u)) with (bind (remove_corners (r_iri u)) (fun u => Ok (TIri u))).
+      rewrite remove_corners_iri. eexists; split; reflexivity.
+    - eexists; split; reflexivity.
+    - destruct (tune_plain_fx allow (r_lex lex)) as [c E]. rewrite E. eexists; split; reflexivity.
+    - cbn [valid_obj valid_suffix] in Vo. apply andb_true_iff in Vo. destruct Vo as [_ VT].
+      change (Str "@" ++ tag) with (c_at :: tag).
+      destruct (tune_lang_fx allow (r_lex lex) tag (valid_tag_chars _ VT)) as [c E].
+      rewrite E. eexists; split; reflexivity.
+    - cbn [valid_obj valid_suffix] in Vo. apply andb_true_iff in Vo. destruct Vo as [_ VD].
+      change (Str "^^<" ++ dt ++ Str ">") with (r_typed_suffix dt).
+      destruct (tune_typed_fx allow (r_lex lex) dt (valid_iri_chars _ VD)) as [c E].
+      rewrite E. eexists; split; reflexivity. }
+  destruct TO as (o' & TO & KO). rewrite TO.
+  exists s', o'. split; [reflexivity|]. unfold k3, kinded. cbn [t_s t_p t_o]. rewrite KS, KO. reflexivity.
+Qed.
+
+Definition ok_case_fx2 (x : striple * layout) : Prop :=
+  valid_triple (fst x) = true /\ valid_layout (snd x) = true /\ C06_dom_fx2 (fst x) (snd x) = true.
+
+Lemma dom_fx2_f7 t l : C06_dom_fx2 t l = true -> rc_F7_fx t l = false.
+Proof. unfold C06_dom_fx2, root_causes_fx2. cbn [forallb negb andb]. rewrite andb_true_r. apply negb_true_iff. Qed.
+
+Lemma run_lines_fx2_ok allow : forall ts acc errs, Forall ok_case_fx2 ts ->
+  exists ys, run_lines_g (process_line_fx2 allow) (map (fun x => nt_line (fst x) (snd x)) ts) acc errs
+             = DocDone (rev acc ++ ys) errs /\
+             map k3 ys = map (fun x => kinded (fst x)) ts.
+Proof.
+  induction ts as [|[t l] ts IH]; intros acc errs H.
+  - exists []. cbn. rewrite app_nil_r. split; reflexivity.
+  - inversion H as [|? ? [V [VL D]] H']; subst. cbn [fst snd] in *. cbn [map run_lines_g fst snd].
+    destruct (process_line_fx2_ok allow t l V VL (dom_fx2_f7 _ _ D)) as (s & o & E & K). rewrite E.
+    destruct (IH ((s, t_p t, o) :: acc) errs H') as (ys & R & M). exists ((s, t_p t, o) :: ys). split.
+    + rewrite R. cbn [rev]. rewrite <- app_assoc. reflexivity.
+    + cbn [map]. rewrite K, M. reflexivity.
+Qed.
+
+Lemma document_partial_fx2 allow ts : Forall ok_case_fx2 ts ->
+  kinded_result (read_raw_string_fx2 allow (nt_doc ts)) = Some (map (fun x => kinded (fst x)) ts, 0%nat).
+Proof.
+  intros H. unfold read_raw_string_fx2. rewrite raw_lines_doc_valid.
+  - destruct (run_lines_fx2_ok allow ts [] 0%nat H) as (ys & R & M). rewrite R. cbn [kinded_result rev app].
+    rewrite M. reflexivity.
+  - eapply Forall_impl; [|exact H]. intros x (A & B & _). auto.
+Qed.
+
+Lemma line_partial_fx2 allow t l :
+  valid_triple t = true -> valid_layout l = true -> C06_dom_fx2 t l = true ->
+  kinded_result (read_raw_string_fx2 allow (nt_line t l)) = Some ([kinded t], 0%nat).
+Proof.
+  intros V VL D. apply (document_partial_fx2 allow [(t, l)]). constructor; [|constructor].
+  unfold ok_case_fx2. cbn [fst snd]. auto.
+Qed.
+
+(** ** the reader /repo has now ([nt_fixed_tok], [nt_fixed_dlt]) *)
 From Shexer Require Import Spec.NtDomCur.
 
 Lemma line_partial_cur allow t l :
   valid_triple t = true -> valid_layout l = true -> C06_dom_cur t l = true ->
   kinded_result (read_raw_string_cur allow (nt_line t l)) = Some ([kinded t], 0%nat).
 Proof.
-  unfold C06_dom_cur, read_raw_string_cur. destruct nt_fixed_tok; [apply line_partial_fx | apply line_partial].
+  unfold C06_dom_cur, read_raw_string_cur. destruct nt_fixed_tok; [destruct nt_fixed_dlt|];
+    [apply line_partial_fx2 | apply line_partial_fx | apply line_partial].
 Qed.
 
 Lemma document_partial_cur allow (ts : list (striple * layout)) :
   Forall (fun x => valid_triple (fst x) = true /\ valid_layout (snd x) = true /\ C06_dom_cur (fst x) (snd x) = true) ts ->
   kinded_result (read_raw_string_cur allow (nt_doc ts)) = Some (map (fun x => kinded (fst x)) ts, 0%nat).
 Proof.
-  unfold C06_dom_cur, read_raw_string_cur. destruct nt_fixed_tok; [apply document_partial_fx | apply document_partial].
+  unfold C06_dom_cur, read_raw_string_cur. destruct nt_fixed_tok; [destruct nt_fixed_dlt|];
+    [apply document_partial_fx2 | apply document_partial_fx | apply document_partial].
 Qed.
 
 Lemma line_terminates_cur allow t l :
@@ -624,13 +801,24 @@ Proof.
   intros V VL D ys e H. pose proof (line_partial_cur allow t l V VL D) as K. rewrite H in K. discriminate.
 Qed.
 
+Lemma forallb_negb_iff rs : forallb negb rs = true <-> Forall (fun b => b = false) rs.
+Proof.
+  induction rs as [|b rs IH]; cbn [forallb].
+  - split; [constructor | reflexivity].
+  - rewrite andb_true_iff, negb_true_iff, IH. split; [intros [? ?]; constructor; auto | intros H; inversion H; auto].
+Qed.
+
 Lemma dom_cur_iff_no_root_cause t l :
   C06_dom_cur t l = true <-> Forall (fun b => b = false) (root_causes_cur t l).
 Proof.
-  unfold C06_dom_cur, root_causes_cur. destruct nt_fixed_tok; [|apply dom_iff_no_root_cause].
-  unfold C06_dom_fx. generalize (root_causes_fx t l). intros rs. induction rs as [|b rs IH]; cbn [forallb].
-  - split; [constructor | reflexivity].
-  - rewrite andb_true_iff, negb_true_iff, IH. split; [intros [? ?]; constructor; auto | intros H; inversion H; auto].
+  unfold C06_dom_cur, root_causes_cur. destruct nt_fixed_tok; [destruct nt_fixed_dlt|];
+    [apply forallb_negb_iff | apply forallb_negb_iff | apply dom_iff_no_root_cause].
+Qed.
+
+Lemma dom_grows2 t l : C06_dom_fx t l = true -> C06_dom_fx2 t l = true.
+Proof.
+  unfold C06_dom_fx, C06_dom_fx2, root_causes_fx, root_causes_fx2. cbn [forallb negb andb].
+  rewrite !andb_true_iff. tauto.
 Qed.
 
 (** the repairs only enlarge the domain *)
